@@ -623,3 +623,39 @@ def determinism_oracle(ops, rng):
             return "quantity {}: derivative-method result {} after a history with method switches / Monte Carlo use, " \
                    "but {} after the same history without them".format(k, r1[k], r2.get(k))
     return None
+
+
+def mc_correlation_follows():
+    """under Monte Carlo, a recalculated result follows a CHANGE OF CORRELATIONS between its sources: deterministic
+    scenarios (numpy seeded, 2000 draws) in which the expected uncertainty changes by a factor >= 2.6; None or a description"""
+    import numpy as np
+    for form, r1, r2 in (("a+b", 0.75, -0.75), ("a-b", -0.75, 0.75), ("a+b", -0.75, 0.75), ("2*a+2*b", 0.75, -0.75)):
+        CL.reset_world()
+        q = CL.q()
+        np.random.seed(12345)
+        q.set_monte_carlo_sample_size(2000)
+        a, b = q.Measurement(5.0, 0.5), q.Measurement(3.0, 0.5)
+        q.set_correlation(a, b, r1)
+        r = {"a+b": lambda: a + b, "a-b": lambda: a - b, "2*a+2*b": lambda: a * 2 + b * 2}[form]()
+        r.error_method = "monte-carlo"
+        with warnings.catch_warnings():
+            warnings.simplefilter("ignore")
+            e1 = float(r.error)
+            q.set_correlation(a, b, r2)
+            r.recalculate()
+            e2 = float(r.error)
+            fresh = {"a+b": lambda: a + b, "a-b": lambda: a - b, "2*a+2*b": lambda: a * 2 + b * 2}[form]()
+            fresh.error_method = "monte-carlo"
+            e3 = float(fresh.error)
+        sign = 1 if "+" in form else -1
+        k = 2 if form.startswith("2") else 1
+        exp1 = k * math.sqrt(0.5 + 2 * sign * r1 * 0.25)
+        exp2 = k * math.sqrt(0.5 + 2 * sign * r2 * 0.25)
+        for what, got, want in (("before the change", e1, exp1), ("after the change and recalculate()", e2, exp2),
+                                ("of the same formula built afresh", e3, exp2)):
+            if not abs(got - want) <= 0.15 * want:          # 2000 draws: the sample std is within ~5 % (3 sigma)
+                CL.reset_world()
+                return ("Monte Carlo, {} with correlation {} then {}: the uncertainty {} is {} but the stated model gives {}"
+                        .format(form, r1, r2, what, got, want))
+    CL.reset_world()
+    return None
